@@ -817,7 +817,7 @@ package xmpp
 //@   ensures [C03.sticky.bind] old(s.err) != nil ==> stepSkipped(s) && s.BindJid == old(s.BindJid)
 //@   ensures [C03.bind.once]   count(Write) <= old(count(Write)) + 1 && count(Decoded) <= old(count(Decoded)) + 1
 //@   ensures [C03.bind.ok]     (old(s.err) == nil && s.err == nil) ==> count(Write) == old(count(Write)) + 1 && last(Write, 2) && count(Decoded) == old(count(Decoded)) + 1 && last(Decoded, 1) && typeof(last(Decoded, 0)) == *stanza.IQ && atlast(Write) < atlast(Decoded)
-//@   ensures [C03.bind.result] (old(s.err) == nil && s.err == nil) ==> last(Decoded, 0).(*stanza.IQ).Type == "result" && typeof(last(Decoded, 0).(*stanza.IQ).Payload) == *stanza.Bind
+//@   ensures [C03.bind.result] (old(s.err) == nil && s.err == nil) ==> last(Decoded, 0).(*stanza.IQ).Type == "result" && typeof(last(Decoded, 0).(*stanza.IQ).Payload) == *stanza.Bind && last(Decoded, 0).(*stanza.IQ).XMLName.Local == "iq"
 //@   ensures s.transport == old(s.transport) && s.Features == old(s.Features) && smStateKept(s)
 //@   assigns s.err, s.BindJid, s.lastPacketId
 //@   emits Write, Decoded, Marshaled
@@ -829,7 +829,7 @@ package xmpp
 //@   ensures [C03.session.skip]    (old(s.err) == nil && old(stanza.sessionOptional(s.Features))) ==> stepSkipped(s)
 //@   ensures [C03.session.once]    count(Write) <= old(count(Write)) + 1 && count(Decoded) <= old(count(Decoded)) + 1
 //@   ensures [C03.session.ok]      (old(s.err) == nil && s.err == nil && !old(stanza.sessionOptional(s.Features))) ==> count(Write) == old(count(Write)) + 1 && last(Write, 2) && count(Decoded) == old(count(Decoded)) + 1 && last(Decoded, 1) && atlast(Write) < atlast(Decoded)
-//@   ensures [C03.session.result]  (old(s.err) == nil && s.err == nil && !old(stanza.sessionOptional(s.Features))) ==> typeof(last(Decoded, 0)) == *stanza.IQ && last(Decoded, 0).(*stanza.IQ).Type == "result"
+//@   ensures [C03.session.result]  (old(s.err) == nil && s.err == nil && !old(stanza.sessionOptional(s.Features))) ==> typeof(last(Decoded, 0)) == *stanza.IQ && last(Decoded, 0).(*stanza.IQ).Type == "result" && last(Decoded, 0).(*stanza.IQ).XMLName.Local == "iq"
 //@   ensures s.transport == old(s.transport) && s.Features == old(s.Features) && smStateKept(s) && s.BindJid == old(s.BindJid)
 //@   assigns s.err, s.lastPacketId
 //@   emits Write, Decoded, Marshaled
